@@ -111,6 +111,9 @@ def run(repo, chk):
     _generator_constant_arms(repo, chk)
     if chk.__class__.__name__ == 'Check':
         _typed_tree_effects(repo, chk)
+        # a named constant substituted at its use keeps class, value and type (shared with C17.D1)
+        from . import c17 as _c17
+        _c17.constant_substitution(repo, chk, 'C14.W2')
 
     # ---------------- W2 literal casts ---------------------------------------------------
     bad = []
